@@ -110,7 +110,16 @@ def sample_cases(ctx, path, limit):
 
 def extend(ctx, verdicts, by_id, reruns=(), repo_tests=True):
     """Record and judge node-level traces; append the verdicts charged to ctx.prop.  `reruns` is a list of
-    (harness binary, argument list) to execute again with tracing on."""
+    (harness binary, argument list) to execute again with tracing on.  A machinery problem of this stage must not hide what
+    the check has already established: it is kept and raised by driver.finish only if no violation is reported."""
+    try:
+        return _extend(ctx, verdicts, by_id, reruns, repo_tests)
+    except D.Inconclusive as e:
+        ctx.deferred_inconclusive = str(e)
+        return verdicts
+
+
+def _extend(ctx, verdicts, by_id, reruns=(), repo_tests=True):
     trace = ctx.path("nodetrace.ndjson")
     open(trace, "w").close()
     if repo_tests:
@@ -131,17 +140,20 @@ def extend(ctx, verdicts, by_id, reruns=(), repo_tests=True):
     by_id["nt/trace"] = {"src": "node-level trace: %d events (%d from the repository's tests)" % (total, n_repo), "out": {}}
     ctx.extra.update({"node_trace_events": total, "node_trace_events_from_repository_tests": n_repo,
                       "node_trace_laws_broken_charged_to_other_properties": len(vs) - len(mine)})
-    twin = TWINS.get(ctx.prop)
-    if twin:
-        tv, _ = judge_trace(ctx, trace, mutant=twin, tag="nodetrace-twin")
-        if any(v["prop"] == ctx.prop for v in tv):
-            ctx.mutants_killed.append("nodetrace:" + twin)
-        else:
-            raise D.Inconclusive("node trace: the wrong variant %s of the reference tables is not noticed on this trace (the trace does not exercise the law)" % twin)
-    binding_probe(ctx, trace)
-    if ctx.prop in VALUE_PROBE:
-        value_probe(ctx, trace, *VALUE_PROBE[ctx.prop])
     ctx.nodetrace_evals = total // 2
+    try:
+        twin = TWINS.get(ctx.prop)
+        if twin:
+            tv, _ = judge_trace(ctx, trace, mutant=twin, tag="nodetrace-twin")
+            if any(v["prop"] == ctx.prop for v in tv):
+                ctx.mutants_killed.append("nodetrace:" + twin)
+            else:
+                raise D.Inconclusive("node trace: the wrong variant %s of the reference tables is not noticed on this trace (the trace does not exercise the law)" % twin)
+        binding_probe(ctx, trace)
+        if ctx.prop in VALUE_PROBE:
+            value_probe(ctx, trace, *VALUE_PROBE[ctx.prop])
+    except D.Inconclusive as e:
+        ctx.deferred_inconclusive = str(e)
     return verdicts + out
 
 
@@ -162,12 +174,16 @@ def binding_probe(ctx, trace):
         ctx.extra["node_trace_with_a_removed_event_rejected"] = True
     else:
         raise D.Inconclusive("node trace: a trace with an event removed was accepted (the trace specification constrains nothing)")
-    opened, victim = {}, None
+    opened, nkids, victim = {}, {}, None
     for i, line in enumerate(lines):
         r = json.loads(line)
         if r["e"] == "B":
             opened[r["d"]] = r
-        elif opened.get(r["d"], {}).get("k") == "Boolean" and r["ok"] and r["cls"] in ("T", "F"):
+            nkids[r["d"]] = 0
+            continue
+        nkids[r["d"] - 1] = nkids.get(r["d"] - 1, 0) + (1 if r["ok"] else -100)
+        # a Boolean node that evaluated both operands successfully (the k3 law speaks of those)
+        if opened.get(r["d"], {}).get("k") == "Boolean" and r["ok"] and r["cls"] in ("T", "F") and nkids.get(r["d"]) == 2:
             victim = i
             break
     if victim is None:
